@@ -65,10 +65,25 @@ def rand_ranking(rng, cands, ties=False, partial=True, min_len=1):
     return groups
 
 
+BIG_POOLS = [
+    [f"c{i}" for i in range(1, 14)],                       # "c10" < "c2" as strings
+    ["10", "2", "1", "11", "3", "20", "4", "5", "6", "7", "8", "9", "12"],   # numeric-looking names
+    [f"Cand {chr(65 + i)}" for i in range(13)],
+]
+
+
 def ranked_profile(rng, n_cands=None, n_ballots=None, ties=False, weights="mixed",
-                   zero_vote=0.25, explicit_cands=0.8, partial=True):
+                   zero_vote=0.25, explicit_cands=0.8, partial=True, allow_large=False):
     n = n_cands or rng.choice([2, 3, 3, 4, 4, 5, 5, 6, 7])
     names = pick_names(rng, n)
+    if allow_large and n_cands is None and rng.random() < 0.08:
+        # two-digit candidate counts (integer weights: the model's rational arithmetic is unreduced)
+        n = rng.choice([9, 10, 12, 13])
+        pool = list(rng.choice(BIG_POOLS))
+        rng.shuffle(pool)
+        names = pool[:n]
+        weights = "int"
+        n_ballots = n_ballots or rng.choice([8, 12, 20, 30])
     voted = names
     if n > 2 and rng.random() < zero_vote:
         voted = names[: rng.randint(max(1, n - 2), n - 1)]
@@ -125,6 +140,27 @@ def fpv_tally(jp, cands):
             for c in g:
                 t[c] += Fraction(b["w"]) / len(g)
     return t
+
+
+FOUR_WAY = [
+    [(["B", "D", "C"], 1), (["A"], 1), (["D", "B"], 1), (["C", "A"], 1)],                       # Borda B = D > A = C
+    [(["C", "B"], 1), (["A", "B"], 1), (["D", "A"], 1), (["B", "A"], 1)],                        # Borda A = B > C = D
+    [(["A", "B", "D", "C"], 2), (["D", "A", "B"], 2), (["B", "C", "A"], 2), (["C"], 2)],      # Borda A = B > C = D
+    [(["D"], 3), (["B", "A", "C"], 3), (["C"], 3), (["A", "C", "D", "B"], 3)],                # Borda A = C > B = D
+]
+
+
+def four_way_pair_tie(rng):
+    """Four candidates tied on first-place votes whose Borda scores leave TWO still-tied pairs: a
+    'borda' tiebreak must fall back to a random order inside each pair and splice both back in place."""
+    names = pick_names(rng, rng.choice([4, 4, 5]))
+    ren = dict(zip("ABCD", names[:4]))
+    f = rng.choice([1, 1, 2, Fraction(1, 2)])
+    ballots = [{"r": [[ren[c]] for c in r], "w": fstr(Fraction(w) * f)} for r, w in rng.choice(FOUR_WAY)]
+    rng.shuffle(ballots)
+    cands = list(names)
+    rng.shuffle(cands)
+    return {"ballots": ballots, "cands": cands}, names
 
 
 def stv_boundary_profile(rng):
